@@ -71,6 +71,85 @@ Proof.
   apply relocate_exec_spec with (P := P); assumption.
 Qed.
 
+(* ---- final round: the WHOLE false_type overload interpreted from the facts (not only the handler) --------------------------------------------
+   relocexec_loop  -> the copy loop: exactly `for (; index < count; ++index, ++srcIter, ++dstIter) Copy(memManager, item at srcIter, address of item
+                      at dstIter)` is the model's copy_from src dst 0 count (index = register rIndex, advanced after every completed copy); anything
+                      else is not interpreted (None)
+   relocexec_try   -> after the two iterator declarations, the ORDER of loop and executor call: a list of items run in sequence
+   relocexec_body  -> `index = 0`, the try statement, and whether the final Destroy(memManager, srcBegin, count) is there
+   relocexec_catch -> the handler (handler_of above)
+   interp_relocexec puts them together; at the current headers it IS ObjMgr.relocate_exec's branch (interp_at_current_headers), so the general
+   strong-guarantee theorem holds for the interpreted function; moving the executor call before the loop, dropping the final Destroy, changing the
+   loop's increments or the handler changes the interpretation and breaks the theorem. *)
+Local Open Scope string_scope.
+Definition cstmt_is_decl (s : cstmt) (v how : string) : bool :=
+  match s with SDecl v' how' => String.eqb v v' && String.eqb how how' | _ => false end.
+Definition cstmt_is_call (s : cstmt) (f : string) (args : list string) : bool :=
+  match s with SCallArgs f' args' => String.eqb f f' && strs_eqb args args' | _ => false end.
+
+Definition loop_is_copy_all (l : list cstmt) : bool :=
+  match l with
+  | [c; i; b] => cstmt_is_call c "<" ["index"; "count"] && cstmt_is_call i "++" ["index"; "srcIter"; "dstIter"] &&
+                 cstmt_is_call b "Copy" ["memManager"; "srcIter"; "addressof()"]
+  | _ => false
+  end.
+
+Inductive titem := TLoop | TExec.
+Fixpoint items_of (l : list cstmt) : option (list titem) :=
+  match l with
+  | [] => Some []
+  | SLoop :: r => option_map (cons TLoop) (items_of r)
+  | SCall f :: r => if String.eqb f "operator()" then option_map (cons TExec) (items_of r) else None
+  | _ => None
+  end.
+Definition try_items (t : list cstmt) : option (list titem) :=
+  match t with
+  | d1 :: d2 :: r => if cstmt_is_decl d1 "srcIter" "srcBegin" && cstmt_is_decl d2 "dstIter" "dstBegin" then items_of r else None
+  | _ => None
+  end.
+(* Some true: index = 0; try ..; Destroy(memManager, srcBegin, count)     Some false: the final Destroy is missing *)
+Definition final_of (b : list cstmt) : option bool :=
+  match b with
+  | [d; STry; f] => if cstmt_is_decl d "index" "?IntegerLiteral" && cstmt_is_call f "Destroy" ["memManager"; "srcBegin"; "count"] then Some true else None
+  | [d; STry] => if cstmt_is_decl d "index" "?IntegerLiteral" then Some false else None
+  | _ => None
+  end.
+Local Close Scope string_scope.
+
+Section Interp.
+Variables (src dst : nat -> loc) (count : nat) (exec : M unit).
+Definition run_item (i : titem) : M unit := match i with TLoop => copy_from src dst 0 count | TExec => exec end.
+Fixpoint run_items (l : list titem) : M unit :=
+  match l with [] => ret tt | [i] => run_item i | i :: r => run_item i ;; run_items r end.
+Definition handler_m (h : handler) : M unit :=
+  match h with HDestroyCopied => idx <- getr rIndex ;; destroy_from dst 0 idx ;; throw | HRethrowOnly => throw | HOther => stuck end.
+Definition interp_relocexec (body tr lp ca : list cstmt) : M unit :=
+  match final_of body, try_items tr, loop_is_copy_all lp with
+  | Some fin, Some items, true =>
+      setr rIndex 0 ;; try_catch (run_items items) (handler_m (handler_of ca)) ;; (if fin then destroy_from src 0 count else ret tt)
+  | _, _, _ => stuck
+  end.
+End Interp.
+
+(* both overloads: the nothrow one stays the hand model's, the other is the interpretation of the generated facts *)
+Definition relocate_exec_interp (c : cat) (src dst : nat -> loc) (count : nat) (exec : M unit) : M unit :=
+  if nothrow c then exec ;; relocate_from c src dst 0 count
+  else interp_relocexec src dst count exec Gen_C04Facts.relocexec_body Gen_C04Facts.relocexec_try Gen_C04Facts.relocexec_loop Gen_C04Facts.relocexec_catch.
+
+Lemma interp_at_current_headers : forall c src dst n e, relocate_exec_interp c src dst n e = relocate_exec c src dst n e.
+Proof. intros c src dst n e. unfold relocate_exec_interp, relocate_exec. destruct (nothrow c); [reflexivity|]. vm_compute. reflexivity. Qed.
+
+Theorem relocate_exec_interp_strong :
+  forall (src dst : nat -> loc) (n : nat) (exec : M unit) (fp : loc -> Prop) (P : heap -> Prop) (R : heap -> heap -> Prop),
+    exec_spec exec fp P R -> (forall j, j < n -> ~ fp (src j) /\ ~ fp (dst j)) ->
+    forall c s, range_pre src dst n (hp s) -> P (hp s) ->
+      wp (relocate_exec_interp c src dst n exec) s
+         (fun _ s' => moved_range src dst n fp (hp s) (hp s') /\ R (hp s) (hp s'))
+         (fun s' => unchanged (hp s) (hp s')).
+Proof.
+  intros src dst n exec fp P R He Hfp c s Hpre HP. rewrite interp_at_current_headers. apply relocate_exec_spec with (P := P); assumption.
+Qed.
+
 (* a handler that only rethrows (mutant M3) leaks: 2 copy-only items, the second copy throws; the first copy stays alive in the destination *)
 Definition rx_heap : heap :=
   mkH (fun l => if (fst l =? 0) && (snd l <? 2) then Live (10 + snd l) else Raw) (fun b => b <? 2) (fun _ => 2) 2 (fun _ => 0).
@@ -82,3 +161,19 @@ Lemma relocate_exec_destroying_handler_same_run :
   exists s', relocate_exec_at HDestroyCopied CPY (fun j => (0, j)) (fun j => (1, j)) 2 (ret tt) (mkS rx_heap [false; true] []) = (Exn, s') /\
              mem (hp s') (1, 0) = Raw /\ mem (hp s') (0, 0) = Live 10 /\ mem (hp s') (0, 1) = Live 11.
 Proof. eexists. split; [vm_compute; reflexivity|repeat split; reflexivity]. Qed.
+
+(* the other interpretable shapes are NOT strongly safe (same 2-item copy-only source; the executor is a fallible allocation standing for the item creator): executor BEFORE the loop -- when a copy then throws, the handler destroys the copies
+   but what the executor created stays; final Destroy missing -- on success the sources stay alive (duplicated items) *)
+Local Open Scope string_scope.
+Definition try_exec_first : list cstmt := [SDecl "srcIter" "srcBegin"; SDecl "dstIter" "dstBegin"; SCall "operator()"; SLoop].
+Local Close Scope string_scope.
+Lemma interp_exec_first_refuted :
+  exists s', interp_relocexec (fun j => (0, j)) (fun j => (1, j)) 2 (b <- alloc 1 ;; ret tt) body_expected try_exec_first loop_expected
+               [SCallArgs "Destroy"%string ["memManager"; "dstBegin"; "index"]%string; SRethrow] (mkS rx_heap [false; false; true] []) = (Exn, s') /\
+             alive (hp s') 2 = true.
+Proof. eexists. split; [vm_compute; reflexivity|reflexivity]. Qed.
+Lemma interp_no_final_destroy_refuted :
+  exists s', interp_relocexec (fun j => (0, j)) (fun j => (1, j)) 2 (ret tt) [SDecl "index"%string "?IntegerLiteral"%string; STry] try_expected loop_expected
+               [SCallArgs "Destroy"%string ["memManager"; "dstBegin"; "index"]%string; SRethrow] (mkS rx_heap [false; false] []) = (Ok tt, s') /\
+             mem (hp s') (0, 0) = Live 10 /\ mem (hp s') (1, 0) = Live 10.
+Proof. eexists. split; [vm_compute; reflexivity|split; reflexivity]. Qed.
